@@ -96,7 +96,10 @@ fn now_ns() -> u64 {
 }
 
 fn log(module: usize, kind: Kind, a: u64) {
-    LOG.with(|l| l.borrow_mut().push(Entry { module, kind, a, t: now_ns() }));
+    // the instant of tear-down is the time of the last event of the whole simulation; it legitimately differs
+    // between a module that panicked and one that fell silent (the latter still has timers pending)
+    let t = if matches!(kind, Kind::End | Kind::Active(_)) { 0 } else { now_ns() };
+    LOG.with(|l| l.borrow_mut().push(Entry { module, kind, a, t }));
 }
 
 /// true: inject panics (execution A); false: fall silent at the same points (execution B)
